@@ -508,5 +508,45 @@ theorem Run.limitInv {so : Sorter} {s : Sess} {picks : List Nat} {so' : Sorter} 
   | nil => exact hi
   | cons _ _ _ _ _ _ ih => exact ih (protocol_limitInv _ _ hi)
 
+/-! ### from `build` to `Run` -/
+
+theorem Run.log_prefix {so : Sorter} {s : Sess} {picks : List Nat} {so' : Sorter} {s' : Sess}
+    (h : Run F P g cfg so s picks so' s') : s.log <+: s'.log := by
+  induction h with
+  | nil => exact List.prefix_refl _
+  | cons _ _ _ _ _ _ ih =>
+    refine List.IsPrefix.trans ?_ ih
+    rcases protocol_log F P g cfg _ _ with h | h <;> rw [h]
+    · exact List.prefix_refl _
+    · exact List.prefix_append _ _
+
+/-- What `build` returns once the graph exists: either the sorter rejects the graph (nothing runs),
+or the loop ran and the result fields are those of the final session. -/
+theorem build_run {w : World} {picks : List Nat} {r : Result} {marks : List Nat}
+    (hdag : createDag P cfg = .ok (g, marks)) (hb : build F P cfg w picks = .ok r) :
+    (∃ so so' s', fromDag g isTaskV (prioFn P) = .ok so ∧
+        Run F P g cfg so { w := w, skipMarks := marks } picks so' s' ∧
+        r.reports = s'.reports ∧ r.log = s'.log ∧ r.w = s'.w ∧
+        r.complete = (s'.stop || s'.crashed || !so'.isActive) ∧
+        r.exit = (if s'.crashed then ladderCode "Exception"
+                  else if s'.reports.any (fun r => r.2 == .fail) then ladderCode "ExecutionError" else exitCode "OK")) ∨
+    (r.reports = [] ∧ r.log = [] ∧ r.w = w ∧ r.exit = ladderCode "Exception") := by
+  unfold build at hb
+  rw [hdag] at hb
+  simp only [] at hb
+  split at hb
+  · right
+    simp only [Except.ok.injEq] at hb
+    subst hb
+    exact ⟨rfl, rfl, rfl, rfl⟩
+  · rename_i so hso
+    split at hb
+    · cases hb
+    · rename_i so' s' hl
+      left
+      simp only [Except.ok.injEq] at hb
+      subst hb
+      exact ⟨so, so', s', hso, run_of_buildLoop _ _ _ _ _ hl, rfl, rfl, rfl, rfl, rfl⟩
+
 end Engine
 end Pytask
